@@ -259,6 +259,7 @@ def run(ck, repo: Repo, tier: str):
     ck.ob("R1-forbidden-sources", "rl_blox", "closure-scanned", True, f"{n_calls} call expressions in {len(closure)} functions scanned, no forbidden source", "", "rl_blox/")
     ck.guard(_uninitialised_reads, ck, repo, funcs)
     ck.guard(_process_state_guarded, ck, repo, funcs, closure, sinks)
+    ck.guard(_default_instances, ck, repo, funcs, closure)
     # positive control: the rule must fire on a known-bad snippet (rules whose expected count is zero)
     bad_src = "import numpy as np\nimport random, time\n\ndef train_x(seed):\n    a = np.random.rand()\n    b = random.random()\n    r = np.random.default_rng()\n    t = time.time()\n    for k in {'a', 'b'}:\n        pass\n"
     hits = _selfcheck(bad_src)
@@ -1666,6 +1667,78 @@ def _feeds_on_itself(cfg, store, observers):
     return False
 
 
+def _attr_stores_on(fn, name):
+    """Statements of ``fn`` (nested functions excluded) that store an attribute / element of the object bound to ``name``:
+    `name.x = ..`, `name.x += ..`, `name.x[i] = ..`, `name[i] = ..`."""
+    out = []
+    for st in ast.walk(fn):
+        tg = st.targets if isinstance(st, ast.Assign) else [st.target] if isinstance(st, (ast.AugAssign, ast.AnnAssign)) else []
+        for t in tg:
+            for el in (t.elts if isinstance(t, (ast.Tuple, ast.List)) else [t]):
+                b = el
+                while isinstance(b, (ast.Attribute, ast.Subscript)):
+                    b = b.value
+                if b is not el and isinstance(b, ast.Name) and b.id == name:
+                    out.append(st)
+    return out
+
+
+def _default_instances(ck, repo, funcs, closure):
+    """R6, default arguments that are objects: `def train(..., state: State = State())` evaluates `State()` once, when the function is defined.
+    If the routine (or a routine of the package it hands the object to) updates that object in place, a later call that also relies on the
+    default continues from the state the earlier call left behind - the run is no longer a function of its arguments.  Evidence: the default
+    is a construction of a class of the package that is not immutable (NamedTuple / frozen dataclass), and an attribute store on the
+    parameter is found in the routine itself or, one call level down, on the parameter the object is bound to."""
+    from ..nf import NF
+    n_seen = 0
+    for q in sorted(closure):
+        if q not in funcs:
+            continue
+        fn, mi = funcs[q]
+        a = fn.args
+        pos = a.posonlyargs + a.args
+        pairs = list(zip(pos[len(pos) - len(a.defaults):], a.defaults)) + [(p_, d_) for p_, d_ in zip(a.kwonlyargs, a.kw_defaults) if d_ is not None]
+        for p_, d_ in pairs:
+            if not (isinstance(d_, ast.Call) and isinstance(d_.func, (ast.Name, ast.Attribute))):
+                continue
+            cq = repo.resolve_expr(mi, d_.func)
+            try:
+                node = repo.lookup(cq)[1] if cq and cq.startswith(repo.PKG + ".") and repo.has(cq) else None
+            except Exception:
+                node = None
+            if not isinstance(node, ast.ClassDef):
+                continue
+            immutable = any((isinstance(b, ast.Name) and b.id == "NamedTuple") or (isinstance(b, ast.Attribute) and b.attr == "NamedTuple") for b in node.bases) \
+                or any("frozen=True" in ast.unparse(dc) for dc in node.decorator_list)
+            if immutable:
+                continue
+            n_seen += 1
+            name = p_.arg
+            if any(isinstance(x, ast.Name) and x.id == name and isinstance(x.ctx, ast.Store) for x in ast.walk(fn)):
+                raise AnalysisError(f"{q}: the parameter `{name}` (default `{short(d_, 40)}`) is rebound in the routine (unrecognised form)")
+            hits = [(q, st) for st in _attr_stores_on(fn, name)]
+            if not hits:
+                for c in ast.walk(fn):
+                    if not (isinstance(c, ast.Call) and isinstance(c.func, (ast.Name, ast.Attribute))):
+                        continue
+                    gq = repo.resolve_expr(mi, c.func)
+                    if not (gq and gq in funcs) or any(isinstance(x, ast.Starred) for x in c.args) or any(k.arg is None for k in c.keywords):
+                        continue
+                    gfn = funcs[gq][0]
+                    try:
+                        b = bind_call(gfn, c)
+                    except Exception:
+                        continue
+                    for gp, arg in b.items():
+                        if isinstance(arg, ast.Name) and arg.id == name:
+                            hits += [(gq, st) for st in _attr_stores_on(gfn, gp)]
+            ok = not hits
+            ck.ob("R6-process-state", q, f"default-instance:{name}", ok, f"`{name}={short(d_, 40)}` is created once, when the routine is defined",
+                  "" if ok else f"the default object is updated in place (`{short(hits[0][1], 60)}` in {hits[0][0].rsplit('.', 1)[1]}): a later call that relies on the default starts from the state an "
+                  f"earlier call in the same process left behind, so equal seeds no longer give equal runs", loc(mi, d_))
+    ck.count("R6-default-instances", n_seen)
+
+
 def _process_state_guarded(ck, repo, funcs, closure, sinks):
     try:
         _process_state(ck, repo, funcs, closure, sinks)
@@ -1920,6 +1993,7 @@ _RB_ALLOC_CARRIER = """            fresh_ = OrderedDict()
             self.buffer = fresh_
 """
 MUTANTS = [
+    {"id": "c09-td7-default-state-instance-updated-in-place", "file": 'rl_blox/algorithm/td7.py', "rule": "R6", "edits": [('    progress_bar: bool = True,\n', '    progress_bar: bool = True,\n    checkpoint_state: CheckpointState = CheckpointState(),\n'), ('    value_clipping_state = ValueClippingState()\n    checkpoint_state = CheckpointState()\n', '    value_clipping_state = ValueClippingState()\n')]},
     {"id": "c09-seed-unwrapped-space", "file": _A + "td3.py", "rule": "R2", "find": "    env.action_space.seed(seed)", "replace": "    env.unwrapped.action_space.seed(seed)"},
     {"id": "c09-sample-unwrapped-space", "file": _A + "ddpg.py", "rule": "R2", "find": "            action = env.action_space.sample()", "replace": "            action = env.unwrapped.action_space.sample()"},
     {"id": "c09-set-of-buffers", "file": "rl_blox/blox/replay_buffer.py", "rule": "R3", "edits": [("        self.active_buffers.add(self.selected_task)", "        self.active_buffers.add(self.buffers[self.selected_task])"),
@@ -1964,6 +2038,7 @@ MUTANTS = [
         ("        self.n_arms = n_arms\n", "        self.n_arms = n_arms\n        _MADE_.append(n_arms)\n        stream_ = len(_MADE_)\n        self.rng_ = np.random.default_rng(stream_)\n")]},
 ]
 BENIGN = [
+    {"id": "c09-b-td7-default-state-instance-only-read", "file": 'rl_blox/algorithm/td7.py', "edits": [('    progress_bar: bool = True,\n', '    progress_bar: bool = True,\n    initial_clipping: ValueClippingState = ValueClippingState(),\n'), ('    value_clipping_state = ValueClippingState()\n', '    value_clipping_state = ValueClippingState(min_value=initial_clipping.min_value, max_value=initial_clipping.max_value)\n')]},
     {"id": "c09-b-read-after-store", "file": "rl_blox/blox/replay_buffer.py", "nth": 0, "find": "        for k, v in sample.items():\n            self.buffer[k][self.insert_idx] = v\n        self.insert_idx", "replace": "        for k, v in sample.items():\n            self.buffer[k][self.insert_idx] = v\n        self.last_added_ = {k: np.array(self.buffer[k][self.insert_idx]) for k in sample}\n        self.insert_idx"},
     {"id": "c09-b-zip-name-tuple", "file": _A + "sac.py", "edits": [("    while step < total_timesteps:\n", "    while step < total_timesteps:\n        key, *sub_ = jax.random.split(key, 3)\n        named_ = dict(zip((\"action\", \"critic\"), sub_))\n")]},
     {"id": "c09-b-seed-arith", "file": _A + "td3.py", "find": "    rng = np.random.default_rng(seed)", "replace": "    rng = np.random.default_rng(seed + 17)"},
